@@ -44,6 +44,7 @@ type c03Case struct {
 	Paren2 []int `json:"paren2,omitempty"` // a second group [i, j], disjoint from or nested inside the first
 	Neg    []int `json:"neg"`              // negated operand indices (never a regex operand)
 	Tight  bool  `json:"tight,omitempty"`  // symbol operators written without blanks around them (a<-b, a*(b+c))
+	Lit    []int `json:"lit,omitempty"`    // operands written as integer literals (a negated one is the literal -1)
 }
 
 type c03tok struct {
@@ -65,6 +66,10 @@ func c03build(c c03Case) (text string, toks []c03tok) {
 	neg := map[int]bool{}
 	for _, n := range c.Neg {
 		neg[n] = true
+	}
+	lit := map[int]bool{}
+	for _, n := range c.Lit {
+		lit[n] = true
 	}
 	var b strings.Builder
 	n := len(c.Ops) + 1
@@ -107,6 +112,14 @@ func c03build(c c03Case) (text string, toks []c03tok) {
 			src := "r" + c03operandName(i)
 			e = &influxql.RegexLiteral{Val: regexp.MustCompile(src)}
 			t = "/" + src + "/"
+		} else if lit[i] {
+			// a signed number is one literal, not a product
+			v := int64(i + 2)
+			if neg[i] {
+				v = -1
+			}
+			e = &influxql.IntegerLiteral{Val: v}
+			t = fmt.Sprint(v)
 		} else {
 			e = &influxql.VarRef{Val: c03operandName(i)}
 			t = c03operandName(i)
@@ -290,7 +303,7 @@ func c03run(r *ev.Run) {
 	if thorough(r) {
 		bareK, parenK, maxNeg, tightK = 5, 4, 2, 3
 	}
-	r.Rule = fmt.Sprintf("every chain of k<=%d operators over all %d spellings (bare), and for k<=%d every placement of one parenthesised contiguous sub-chain x every set of <=%d negated operands (incl. a negated group); in the quick tier also every level pattern of length 4 and 5 with the first and the last spelling of each level; each chain of k<=%d operators also written without blanks around its symbol operators; state = distinct expression text; non-trivial = parsed and compared with the reference grouping", bareK, nops, parenK, maxNeg, tightK)
+	r.Rule = fmt.Sprintf("every chain of k<=%d operators over all %d spellings (bare), and for k<=%d every placement of one parenthesised contiguous sub-chain x every set of <=%d negated operands (incl. a negated group); in the quick tier also every level pattern of length 4 and 5 with the first and the last spelling of each level; each chain of k<=%d operators also written without blanks around its symbol operators; chains of <=3 operators with every set of operands written as integer literals and signs on literals and names alike; state = distinct expression text; non-trivial = parsed and compared with the reference grouping", bareK, nops, parenK, maxNeg, tightK)
 	r.Set("operator_spellings", nops)
 	r.Set("max_chain_bare", bareK)
 	r.Set("max_chain_with_parens_and_negation", parenK)
@@ -384,6 +397,63 @@ func c03run(r *ev.Run) {
 				}
 				run(c03Case{Ops: ops, ParenI: 0, ParenJ: 1, Paren2: groups})
 			}
+		}
+	}
+	// operands written as numbers: every non-empty set of literal operands x every set of <= maxNeg signed ones, for
+	// all spellings up to two operators and one spelling per level for three (a signed number is a single literal, and
+	// a printer must not merge it with its neighbour)
+	{
+		var reps []int
+		seenLevel := map[int]bool{}
+		for i, o := range c03ops {
+			if !o.regex && !seenLevel[o.level] {
+				seenLevel[o.level] = true
+				reps = append(reps, i)
+			}
+		}
+		var all []int
+		for i, o := range c03ops {
+			if !o.regex {
+				all = append(all, i)
+			}
+		}
+		for k := 1; k <= 3; k++ {
+			alpha := all
+			if k == 3 && !thorough(r) {
+				alpha = reps
+			}
+			total := 1
+			for i := 0; i < k; i++ {
+				total *= len(alpha)
+			}
+			kk, al := k, alpha
+			parallelFor(total, func(idx int) {
+				ops := make([]int, kk)
+				x := idx
+				for i := 0; i < kk; i++ {
+					ops[i] = al[x%len(al)]
+					x /= len(al)
+				}
+				for mask := 1; mask < 1<<(kk+1); mask++ {
+					var lits []int
+					for i := 0; i <= kk; i++ {
+						if mask&(1<<i) != 0 {
+							lits = append(lits, i)
+						}
+					}
+					var rec func(start int, cur []int)
+					rec = func(start int, cur []int) {
+						run(c03Case{Ops: ops, ParenI: -1, ParenJ: -1, Neg: append([]int{}, cur...), Lit: lits})
+						if len(cur) == maxNeg+1 {
+							return
+						}
+						for q := start; q <= kk; q++ {
+							rec(q+1, append(cur, q))
+						}
+					}
+					rec(0, nil)
+				}
+			})
 		}
 	}
 	for k := 1; k <= bareK; k++ {
